@@ -67,7 +67,11 @@ func pairs(m map[string]string) []any {
 	sort.Strings(keys)
 	out := []any{}
 	for _, k := range keys {
-		out = append(out, []any{k, m[k]})
+		v := m[k]
+		if v == `""` {
+			v = "" // the YAML spelling of the empty string
+		}
+		out = append(out, []any{k, v})
 	}
 	return out
 }
@@ -209,6 +213,9 @@ func c07DataStream(r *Run) {
 		}
 		if r.Rng.Intn(10) == 0 {
 			g.fill["layout"] = "b" // a layout named by the caller's data only
+		}
+		if r.Rng.Intn(8) == 0 {
+			g.fm[g.page]["layout"] = `""` // present but empty: names no layout
 		}
 		r.Add(c07DataCase(g, fmt.Sprintf("g%d", i)))
 	}
